@@ -453,11 +453,20 @@ class Assign(Statement, AssignBase):
         return result
 
     def map_expressions(self, mapper, include_lhs=True):
+        from pymbolic.primitives import Variable
+
+        def map_loop_ident(ident):
+            # The loop identifier occurs in the (mapped) subscripts and
+            # right-hand side, so it has to follow them.
+            mapped_ident = mapper(Variable(ident))
+            assert isinstance(mapped_ident, Variable)
+            return mapped_ident.name
+
         return (super()
                 .map_expressions(mapper, include_lhs=include_lhs)
                 .copy(
                     loops=[
-                        (ident, mapper(start), mapper(end))
+                        (map_loop_ident(ident), mapper(start), mapper(end))
                         for ident, start, end in self.loops]))
 
     def __str__(self):
